@@ -6,8 +6,6 @@ import (
 	"fmt"
 	"strings"
 
-	"github.com/tigerwill90/fox"
-
 	"verifharness/mc"
 	"verifharness/ref"
 	"verifharness/rsx"
@@ -22,6 +20,9 @@ type PoolDef struct {
 	K        int      // max subset size
 	Always   []string // patterns present in every set (fan-out pools)
 	Other    []string // patterns registered under POST in every set (several methods in one tree)
+	// AfterDelete: every set is additionally built with each further pool pattern registered and
+	// deleted again (the router went through a node split and a merge); only those routers are evaluated
+	AfterDelete bool
 }
 
 func fanStatics(n int) []string {
@@ -62,6 +63,8 @@ func Pools(quick bool) []PoolDef {
 	// and above '{' ('~'): the position of the wildcard edges among sorted children varies
 	bytesPats := append([]string{"/"}, rsx.GenPatterns([]string{"$", "!a", "+", "~", "{}", "*{}"}, 2, true, "")...)
 	pools = append(pools, PoolDef{Name: "bytes", Patterns: bytesPats, Paths: rsx.GenPaths([]string{"$", "!a", "+", "~", "b"}, 3), Hosts: []string{""}, K: k - 1})
+	// after-delete: the core pool again, every set built with one more pattern registered and deleted
+	pools = append(pools, PoolDef{Name: "core-after-delete", Patterns: core, Paths: rsx.GenPaths(reqSegs, 3), Hosts: []string{""}, K: k - 1, AfterDelete: true})
 	// hostname pool
 	var hostPats []string
 	for _, h := range []string{"a.b", "b.a.b", "{h}.b", "a.{t}", "a{m}.b"} {
@@ -100,33 +103,13 @@ func boolInt(b bool) int {
 type Case struct {
 	Set []rsx.RouteSpec `json:"set"`
 	Req rsx.Req         `json:"req"`
+	// Extra, when set, is registered after Set and deleted again before the request
+	Extra string `json:"extra,omitempty"`
 }
 
-// aux holds the extra views of the same registered set.
-type aux struct {
-	ro *fox.Txn // read-only txn on the router
-	wt *fox.Txn // write txn on another router holding the same routes uncommitted
-	wf *fox.Router
-}
+type aux = rsx.TxnViews
 
-func buildAux(e *rsx.Env) (*aux, error) {
-	a := &aux{ro: e.F.Txn(false)}
-	e2 := rsx.NewEnv(e.Prof)
-	a.wf = e2.F
-	a.wt = e2.F.Txn(true)
-	for i, s := range e.Set {
-		if _, err := a.wt.Handle(s.Method, s.Pattern, e2.Handler(i), rsx.RouteOpts(i, s)...); err != nil {
-			a.wt.Abort()
-			return nil, fmt.Errorf("write txn rejects route accepted by router: %v", err)
-		}
-	}
-	return a, nil
-}
-
-func (a *aux) close() {
-	a.ro.Abort()
-	a.wt.Abort()
-}
+func buildAux(e *rsx.Env) (*aux, error) { return e.BuildTxnViews() }
 
 // roundTrip checks that substituting the reported values into the pattern reproduces host+path.
 func roundTrip(pat *ref.Pattern, kv []ref.KV, host, path string) string {
@@ -220,16 +203,8 @@ func eval(e *rsx.Env, a *aux, rq rsx.Req) (bool, bool, string, string) {
 		}
 	}
 	// transactions agree with the router
-	var ot rsx.Obs
-	for i, l := range []*fox.Txn{a.ro, a.wt} {
-		rsx.ObserveLookups(l, rq, &ot)
-		if ot.RevID != o.RevID || ot.RevTsr != o.RevTsr || ot.LkID != o.LkID || ot.LkTsr != o.LkTsr || !rsx.SameKV(ot.LkParams, o.LkParams) || ot.ItID != o.ItID {
-			which := "read-only Txn"
-			if i == 1 {
-				which = "write Txn holding the same routes uncommitted"
-			}
-			return false, nontrivial, "txn-disagree", fmt.Sprintf("%s answers reverse=(%d,%v) lookup=(%d,%v,[%s]) iter=%d: %s", which, ot.RevID, ot.RevTsr, ot.LkID, ot.LkTsr, rsx.KVString(ot.LkParams), ot.ItID, hdr())
-		}
+	if d := a.Disagree(rq, &o); d != "" {
+		return false, nontrivial, "txn-disagree", d + ": " + hdr()
 	}
 	if !decided || e.GrayPrefixedCatchAll(o.LkID, o.LkParams) {
 		return true, nontrivial, "", ""
@@ -275,42 +250,68 @@ func runPool(c *mc.Ctx, r *mc.Result, pd PoolDef) {
 		for i, p := range pd.Other {
 			set = append(set, rsx.RouteSpec{Method: []string{"POST", "FOO"}[i%2], Pattern: p})
 		}
+		evalEnv := func(e *rsx.Env, extra string) {
+			a, err := buildAux(e)
+			if err != nil {
+				r.Violate("rsx", "txn-disagree", err.Error()+" set "+rsx.SetString(set), Case{Set: set, Extra: extra})
+				return
+			}
+			r.States++
+			reqMethods := []string{"GET"}
+			if len(pd.Other) > 0 {
+				reqMethods = []string{"GET", "POST", "FOO", "PUT"}
+			}
+			pre := ""
+			if extra != "" {
+				pre = fmt.Sprintf("[after Handle(%s) and Delete(%s)] ", extra, extra)
+			}
+			for _, h := range pd.Hosts {
+				for _, p := range pd.Paths {
+					for _, m := range reqMethods {
+						rq := rsx.Req{Method: m, Host: h, Path: p}
+						abst, nontriv, class, msg := eval(e, a, rq)
+						r.Evaluations++
+						r.Transitions++
+						if abst {
+							r.Abstained++
+						}
+						if nontriv {
+							r.DistinctNontrivial++
+						}
+						if class != "" {
+							r.Violate("rsx", class, pre+msg, Case{Set: set, Req: rq, Extra: extra})
+						}
+					}
+				}
+			}
+			a.Close()
+		}
+		if pd.AfterDelete {
+			inSet := map[string]bool{}
+			for _, s := range set {
+				inSet[s.Pattern] = true
+			}
+			for _, extra := range pd.Patterns {
+				if inSet[extra] {
+					continue
+				}
+				e, err := rsx.BuildAfterDelete(set, "GET", extra, false, rsx.Profile{})
+				if err != nil {
+					r.Count("histories_rejected_by_router", 1)
+					continue
+				}
+				evalEnv(e, extra)
+			}
+			r.Count("sets", 1)
+			return
+		}
 		e, err := rsx.Build(set, rsx.Profile{})
 		if err != nil {
 			r.Count("sets_rejected_by_router", 1)
 			return
 		}
-		a, err := buildAux(e)
-		if err != nil {
-			r.Violate("rsx", "txn-disagree", err.Error()+" set "+rsx.SetString(set), Case{Set: set})
-			return
-		}
 		r.Count("sets", 1)
-		r.States++
-		reqMethods := []string{"GET"}
-		if len(pd.Other) > 0 {
-			reqMethods = []string{"GET", "POST", "FOO", "PUT"}
-		}
-		for _, h := range pd.Hosts {
-			for _, p := range pd.Paths {
-				for _, m := range reqMethods {
-					rq := rsx.Req{Method: m, Host: h, Path: p}
-					abst, nontriv, class, msg := eval(e, a, rq)
-					r.Evaluations++
-					r.Transitions++
-					if abst {
-						r.Abstained++
-					}
-					if nontriv {
-						r.DistinctNontrivial++
-					}
-					if class != "" {
-						r.Violate("rsx", class, msg, Case{Set: set, Req: rq})
-					}
-				}
-			}
-		}
-		a.close()
+		evalEnv(e, "")
 		if i < 3 {
 			r.Sample(map[string]any{"pool": pd.Name, "set": rsx.SetString(set), "requests": len(pd.Hosts) * len(pd.Paths)})
 		}
@@ -322,7 +323,15 @@ func replay(c *mc.Ctx, raw json.RawMessage) string {
 	if err := json.Unmarshal(raw, &cs); err != nil {
 		return "bad case: " + err.Error()
 	}
-	e, err := rsx.Build(cs.Set, rsx.Profile{})
+	var e *rsx.Env
+	var err error
+	pre := ""
+	if cs.Extra != "" {
+		e, err = rsx.BuildAfterDelete(cs.Set, "GET", cs.Extra, false, rsx.Profile{})
+		pre = fmt.Sprintf("[after Handle(%s) and Delete(%s)] ", cs.Extra, cs.Extra)
+	} else {
+		e, err = rsx.Build(cs.Set, rsx.Profile{})
+	}
 	if err != nil {
 		return ""
 	}
@@ -330,8 +339,11 @@ func replay(c *mc.Ctx, raw json.RawMessage) string {
 	if err != nil {
 		return err.Error()
 	}
-	defer a.close()
+	defer a.Close()
 	_, _, _, msg := eval(e, a, cs.Req)
+	if msg != "" {
+		msg = pre + msg
+	}
 	return msg
 }
 
